@@ -20,17 +20,48 @@ INT64_MIN = -(2**63)
 WAIT_TIMEOUT = 120.0
 
 
+class I64(int):
+    """A Python int that wraps like numba's int64 under +, -, * and unary minus (an index computed from the
+    'integer indefinite' of a NaN conversion overflows silently in compiled code; it must do the same here)."""
+
+    __slots__ = ()
+
+    @staticmethod
+    def _w(v):
+        v &= (1 << 64) - 1
+        return I64(v - (1 << 64) if v >= (1 << 63) else v)
+
+    def __add__(self, o):
+        return I64._w(int(self) + int(o)) if isinstance(o, (int, np.integer)) and not isinstance(o, bool) else int.__add__(self, o)
+
+    __radd__ = __add__
+
+    def __sub__(self, o):
+        return I64._w(int(self) - int(o)) if isinstance(o, (int, np.integer)) and not isinstance(o, bool) else int.__sub__(self, o)
+
+    def __rsub__(self, o):
+        return I64._w(int(o) - int(self)) if isinstance(o, (int, np.integer)) and not isinstance(o, bool) else int.__rsub__(self, o)
+
+    def __mul__(self, o):
+        return I64._w(int(self) * int(o)) if isinstance(o, (int, np.integer)) and not isinstance(o, bool) else int.__mul__(self, o)
+
+    __rmul__ = __mul__
+
+    def __neg__(self):
+        return I64._w(-int(self))
+
+
 def nb_int(v):
     """numba/x86 semantics of int(float): truncate toward zero; NaN, +-inf and
-    out-of-range give INT64_MIN (cvttsd2si's 'integer indefinite')."""
+    out-of-range give INT64_MIN (cvttsd2si's 'integer indefinite'); the result wraps like an int64 in later arithmetic."""
     if isinstance(v, (bool, np.bool_)):
         return int(v)
     if isinstance(v, (int, np.integer)):
         return int(v)
     f = float(v)
     if f != f or f in (float("inf"), float("-inf")) or abs(f) >= 2.0**63:
-        return INT64_MIN
-    return int(f)
+        return I64(INT64_MIN)
+    return I64(int(f))
 
 
 class Abort(BaseException):
